@@ -32,6 +32,13 @@ func VFCachePending(c *Cache) int { return len(c.inCh) }
 // VFFlushEvictions fires the eviction timer for every queued entry.
 func VFFlushEvictions(c *Cache) { c.unsubQueue.Flush() }
 
+// VFPopEvictions takes the expired entries off the eviction queue the way
+// the queue's timer goroutine does before it calls the callback.
+func VFPopEvictions(c *Cache) []interface{} { return c.unsubQueue.Clear() }
+
+// VFFireEviction runs the eviction callback for an entry popped earlier.
+func VFFireEviction(c *Cache, v interface{}) { c.mqUnsubscribe(v) }
+
 // VFEvictionQueueLen is the number of entries waiting for eviction.
 func VFEvictionQueueLen(c *Cache) int { return c.unsubQueue.Len() }
 
